@@ -34,14 +34,18 @@ def generate(unit):
     else:
         stmts = fn.body
     eng = Engine(unit, unit.name)
+    if _vals.BOUND is not None:
+        eng.deadline = time.time() + BMC_GEN_BUDGET_S
     eng.loops = loop_ordinals(stmts)
     missing = [k for k in unit.loops if k not in set(eng.loops.values())]
-    if missing:
+    if missing and _vals.BOUND is None:
         raise NotGenerated(f"{unit.name}: loop ordinal(s) {missing} not present in the source")
     env = {p: fresh_val(p, sh) for p, sh in unit.params.items()}
     for v in env.values():
         _wf(eng, v)
     env = eng.with_ghost(unit, env)
+    if any(isinstance(n, (ast.Yield, ast.YieldFrom)) for s_ in stmts for n in ast.walk(s_)):
+        env["__yields__"] = VInt(0)
     env["__old__"] = dict(env)
     pc = []
     for label, expr in unit.requires_items():
@@ -76,14 +80,18 @@ def generate(unit):
         goal = z3.Or(*[z3.And(*o.pc) if o.pc else z3.BoolVal(True) for o in outs if o.kind in ("return", "fall")])
         eng.obligs.append(Oblig(f"{unit.name}:cover:some-normal-exit-reachable@L{fn.lineno}", list(eng.axioms) + [goal], None, fn.lineno, "cover"))
     info = {"sha1": segment_sha(text, stmts), "lines": [stmts[0].lineno, stmts[-1].end_lineno] if stmts else [fn.lineno, fn.end_lineno],
-            "assumptions": sorted(eng.assumptions), "dropped": sorted(eng.dropped), "yields": len(eng.yields)}
+            "assumptions": sorted(eng.assumptions) + ([f"lenient unit: {len(eng.havocked)} expressions/statements outside the subset abstracted to unconstrained values"] if eng.havocked else []),
+            "dropped": sorted(eng.dropped), "yields": len(eng.yields), "havocked": sorted(eng.havocked)[:60]}
     return eng, eng.obligs, info
 
 
 def _wf(eng, v):
     """well-formedness of fresh symbolic inputs: lengths are non-negative"""
+    from . import values as _vals
     if isinstance(v, VSeq):
         eng.axioms.append(v.len >= 0)
+        if _vals.BOUND is not None:
+            eng.axioms.append(v.len <= _vals.BOUND)
     elif isinstance(v, VStr):
         eng.axioms.append(strlen(v.t) >= 0)
     elif isinstance(v, VRec):
@@ -96,8 +104,10 @@ def _wf(eng, v):
         _wf(eng, v.val)
     elif isinstance(v, VMap):
         eng.axioms.append(v.keys.len >= 0)
+        if _vals.BOUND is not None:
+            eng.axioms.append(v.keys.len <= _vals.BOUND)
         p, q = z3.Ints("p!wf q!wf")
-        eng.axioms.append(z3.ForAll([p, q], z3.Implies(z3.And(0 <= p, p < q, q < v.keys.len), z3.Not(val_eq(seq_read(v.keys, p), seq_read(v.keys, q))))))
+        eng.axioms.append(QAll([p, q], z3.Implies(z3.And(0 <= p, p < q, q < v.keys.len), z3.Not(val_eq(seq_read(v.keys, p), seq_read(v.keys, q))))))
 
 
 GLOBAL_AXIOMS = []
@@ -105,13 +115,22 @@ _s = z3.Const("s_ax", STR)
 GLOBAL_AXIOMS.append(z3.ForAll([_s], strlen(_s) >= 0))
 
 
-def model_to_dict(m, limit=60):
+def model_to_dict(m, limit=80):
     out = {}
-    for d in m.decls():
-        if d.arity() == 0:
-            s_ = str(m[d])
-            if len(s_) < 200:
-                out[d.name()] = s_
+    decls = sorted(m.decls(), key=lambda d: (d.arity() > 0, d.name()))
+    for d in decls:
+        try:
+            val = m[d]
+            if d.arity() > 0 and isinstance(val, z3.FuncInterp) and val.num_entries() > 12:
+                continue
+            if d.arity() == 0 and z3.is_array(val) and len(val.sexpr()) > 600:
+                continue
+            s_ = val.sexpr() if d.arity() == 0 else str(val)
+        except Exception:
+            continue
+        s_ = " ".join(s_.split())
+        if len(s_) < (200 if d.arity() == 0 else 400):
+            out[d.name()] = s_
         if len(out) >= limit:
             break
     return out
@@ -165,6 +184,15 @@ def discharge(o, want_smt2=False, both=False):
             res["status"] = "undecided"
             res["reason"] = f"solver disagreement z3={r} cvc5={c}"
             return res
+    if inverted and r == z3.unknown:
+        # vacuity guard only: retry on the quantifier-free part of the hypotheses (weaker, documented in DESIGN 1.5)
+        s2 = z3.Solver()
+        s2.set("timeout", 5000)
+        qf = [h for h in o.hyps if not _has_quantifier(h)]
+        s2.add(*qf)
+        if s2.check() == z3.sat:
+            r = z3.sat
+            res["note"] = "cover decided on the quantifier-free part of the hypotheses"
     if inverted:
         res["status"] = "discharged" if r == z3.sat else ("refuted" if r == z3.unsat else "undecided")
         if r == z3.unsat:
@@ -181,6 +209,20 @@ def discharge(o, want_smt2=False, both=False):
     if want_smt2 and smt2:
         res["smt2"] = smt2[-1500:]
     return res
+
+
+def _has_quantifier(e, _seen=None):
+    todo = [e]
+    seen = set()
+    while todo:
+        x = todo.pop()
+        if x.get_id() in seen:
+            continue
+        seen.add(x.get_id())
+        if z3.is_quantifier(x):
+            return True
+        todo.extend(x.children())
+    return False
 
 
 REGISTRY = {}
@@ -227,6 +269,90 @@ def _discharge_idx(i):
         return {"name": o.name, "kind": o.kind, "line": o.line, "backend": "z3", "time_s": 0, "status": "undecided", "reason": "discharge crashed: " + repr(ex)}
 
 
+def _refutation_pass(keys, outs, both):
+    """second pass for obligations z3 left `unknown` for incompleteness (not timeouts): regenerate the unit with
+    axiom-defined arrays instead of lambda terms and ask again; only a definite `sat` (with model) changes a verdict"""
+    from . import engine as _eng
+    global _ALL
+    todo = []
+    for key, out in zip(keys, outs):
+        if any(o["status"] == "undecided" and "incomplete" in o.get("reason", "") for o in out["obligations"]):
+            todo.append((key, out))
+    if not todo:
+        return
+    _eng.AXIOM_ARRAYS = True
+    try:
+        for key, out in todo:
+            out2, obligs = _generate_unit(key)
+            if out2.get("undecided") or len(obligs) != len(out["obligations"]):
+                continue
+            for i, (o, r) in enumerate(zip(obligs, out["obligations"])):
+                if r["status"] == "undecided" and "incomplete" in r.get("reason", "") and o.name == r["name"]:
+                    r2 = discharge(o, want_smt2=False, both=False)
+                    if r2["status"] == "refuted":
+                        r2["note"] = "refuted in the refutation pass (axiom-defined arrays); first pass: " + r.get("reason", "")
+                        r2["time_s"] = round(r2["time_s"] + r["time_s"], 4)
+                        out["obligations"][i] = r2
+    finally:
+        _eng.AXIOM_ARRAYS = False
+
+
+BMC_BOUND = int(os.environ.get("PYVC_BMC_BOUND", "3"))
+BMC_GEN_BUDGET_S = float(os.environ.get("PYVC_BMC_GEN_BUDGET_S", "20"))
+
+
+def _bmc_pass(keys, outs, procs):
+    """Refutation pass for units with an obligation that is not discharged: regenerate the unit in bounded mode
+    (sequence lengths <= B, loops unrolled, index quantifiers expanded: quantifier-free queries) and look for definite
+    counterexamples of the postconditions / safety conditions.  Finds counterexamples only; proves nothing."""
+    from . import values as _vals
+    global _ALL
+    todo = [(k, o) for k, o in zip(keys, outs) if not o.get("undecided", "") or not str(o.get("undecided", "")).startswith("not-generated")]
+    todo = [(k, o) for k, o in todo if o.get("undecided") or any(x["status"] != "discharged" and x["kind"] != "cover" for x in o["obligations"])]
+    if not todo:
+        return
+    from . import engine as _eng
+    for bound in (BMC_BOUND, 1):
+        _vals.BOUND = bound
+        _eng.AXIOM_ARRAYS = True
+        try:
+            _ALL = []
+            spans = []
+            gen = []
+            for key, out in todo:
+                if out.get("bmc") is not None:
+                    spans.append((len(_ALL), len(_ALL)))
+                    gen.append(None)
+                    continue
+                o2, obligs = _generate_unit(key)
+                lo = len(_ALL)
+                if not o2.get("undecided"):
+                    for ob in obligs:
+                        if ob.kind in ("post", "safety", "pre@callsite", "yield", "raises-subset"):
+                            ob.name = ob.name.replace(":" + ob.kind + ":", f":bmc{bound}:{ob.kind}:", 1)
+                            _ALL.append((ob, False, False))
+                spans.append((lo, len(_ALL)))
+                gen.append(o2)
+            n = len(_ALL)
+            if n:
+                ctx = mp.get_context("fork")
+                with ctx.Pool(min(16, n)) as pool:
+                    results = pool.map(_discharge_idx, range(n), chunksize=1)
+            else:
+                results = []
+            for (key, out), (lo, hi), o2 in zip(todo, spans, gen):
+                if o2 is None:
+                    continue
+                if o2.get("undecided"):
+                    out["bmc_note"] = f"bounded pass (B={bound}) not generated: {o2['undecided']}"
+                    continue
+                out["bmc"] = {"bound": bound, "checked": hi - lo, "counterexamples": [r for r in results[lo:hi] if r["status"] == "refuted"]}
+        finally:
+            _vals.BOUND = None
+            _eng.AXIOM_ARRAYS = False
+            _ALL = []
+
+
 def verify_units(keys, both=False, procs=None):
     """generation is sequential in this process (fast); all obligations of all units are then discharged in one
     fork()ed pool, one obligation per task"""
@@ -266,6 +392,7 @@ def verify_units(keys, both=False, procs=None):
             out["obligations"].append(r)
         out["wall_s"] = round(out.get("gen_s", 0) + sum(r.get("time_s", 0) for r in out["obligations"]), 3)
     _ALL = []
+    _bmc_pass(keys, outs, procs)
     return outs
 
 
